@@ -23,6 +23,25 @@ from mirsmt.summaries import err, ok
 BAD_JUMP = ("InvalidOffsetForJump", "InvalidJumpTarget", "NonExistentJumpTarget", "NoConcreteJumpDestination")
 
 
+def replay_kind(out, kind, jumpi):
+    """Native confirmation for an error-classification model: run a program raising that kind in both modes."""
+    if kind in BAD_JUMP:
+        judge = lambda d: (not d.get("permissive_ok", True)) or (d.get("strict_ok", False) and kind != "NoConcreteJumpDestination")
+    else:
+        kind = "GasLimitExceeded" if kind == "GasLimitExceeded" else "StackDepthExceeded"
+        judge = lambda d: d.get("permissive_ok", False) or d.get("strict_ok", False)
+    c1, r1 = native.scenario(out, "error_kind", {"kind": kind, "jumpi": 1 if jumpi else 0}, judge=judge)
+    if c1:
+        return c1, r1
+    # a rejected JUMP must also END the path (dead code behind it stays dead)
+    if kind in BAD_JUMP and not jumpi:
+        c2, r2 = native.scenario(out, "rejected_jump_falls_through", {"permissive": 1})
+        if c2:
+            return c2, r2
+        r1 = {"error_kind": r1, "falls_through": r2}
+    return False, r1
+
+
 def errors_vec(ctx, cell):
     v = View(ctx)
     e = v.get(cell, "VM", "errors")
@@ -45,19 +64,28 @@ def run(out, tier):
                         "the order of the error buffer is not modelled (multiset)"]
     e1(out, eng, pr)
     e2(out, eng, pr)
+    # E4: gas exhaustion is an execution error in BOTH modes (VM::advance records it iff gas was the reason)
+    from . import c03
+    c03.advance(out, eng, eng.explorer(), pr, oid="E4.gas_exhaustion_always_reported", key="gas-exhaustion-not-reported",
+                replay=lambda p, m: replay_kind(out, "GasLimitExceeded", jumpi=False))
     out.extra["solver_queries"] = pr.n_queries
 
 
-def e1(out, eng, pr):
+POLL = z3.BitVec("poll_every", 64)
+IP_AFTER = z3.BitVec("ip_after_opcode", 32)
+
+
+def main_loop(eng, havoc_ip=False):
+    """One iteration of VM::execute (cut at the loop head) with the executed opcode abstracted to
+    Ok(()) | Err(any located error); it may have asked for the thread to die and (havoc_ip) may have moved the
+    instruction pointer to any offset inside the code, as JUMP does.  -> (paths, explorer)"""
     f = eng.fn(">::execute", file="src/vm/mod.rs")
     head = None
     for bb, blk in f.blocks.items():
         if blk.term and "VM::current_instruction(" in blk.term:
             head = bb
     if head is None:
-        out.inconc("E1: loop head of VM::execute not found")
-        return
-    POLL = z3.BitVec("poll_every", 64)
+        raise Unsupported("loop head of VM::execute not found")
 
     def poll_every(ctx, a, ty, c):
         return Int(POLL, 64)
@@ -73,6 +101,12 @@ def e1(out, eng, pr):
         # the opcode may have asked for the thread to die
         kidx = ctx.src.field_index("VM", "current_thread_killed")
         ctx.write(cell, path + (("f", kidx, "bool"),), Bool(z3.Bool("op_killed")))
+        if havoc_ip:
+            q = View(ctx).get(cell, "VM", "thread_queue")
+            if isinstance(q, Obj) and q.elems:
+                tpath = (("f", ctx.src.field_index("VMThread", "thread"), "disassembly::ExecutionThread"),
+                         ("f", ctx.src.field_index("ExecutionThread", "instruction_pointer"), "u32"))
+                ctx.write(q.elems[0], tpath, Int(IP_AFTER, 32))
         k = ctx.choose(2)
         ctx.events.append(("op", "ok" if k == 0 else "err", n0))
         if k == 0:
@@ -102,7 +136,7 @@ def e1(out, eng, pr):
         return NotImplemented
     extra = [(r"^<dyn Watchdog as Watchdog>::poll_every$", poll_every), (r"^<dyn Watchdog as Watchdog>::should_stop$", should_stop),
              (r"^<dyn Opcode as Opcode>::execute$", op_execute), (r"^<dyn Opcode as Opcode>::min_gas_cost$", min_gas),
-             (r"^VM::kill_current_thread$", kill), (r"^VM::advance$", advance)]
+             (r"^VM::kill_current_thread$", kill), (r"^VM::advance(_\w+)?$", advance)]
     ex = eng.explorer(extra=extra, max_visits=3)
 
     def body(ctx):
@@ -111,8 +145,12 @@ def e1(out, eng, pr):
         ctx.stop_at = {head: 2}
         r = ctx.run_fn(f, [Ref(cell, (), True)])
         return r, cell, ctx
+    return ex.explore(body), ex
+
+
+def e1(out, eng, pr):
     try:
-        paths = ex.explore(body)
+        paths, ex = main_loop(eng)
     except Unsupported as e:
         out.obligation("E1.execute_error_arm", "mirsmt", "inconclusive", 0, witness=False, note=str(e))
         out.inconc("E1: %s" % e)
@@ -154,11 +192,12 @@ def e1(out, eng, pr):
         return z3.And(conds)
 
     def replay(p, model):
-        return native.scenario(out, "strict_permissive_error", {"kind": 0})
-    verdict(out, pr, "E1.execute_error_arm", paths, post, pre=inv, kinds=("cut", "return"),
-            what="an opcode error is added to the error buffer exactly once, except jump-target errors in permissive mode; the thread is killed either way",
-            replay=replay, key="vm-execute-error-classification")
-    if len(seen["kinds"]) < 13:
+        located = [e for e in p.ctx.events if e[0] == "op_err"][0][1]
+        return replay_kind(out, located.fields[1].variant, jumpi=False)
+    res = verdict(out, pr, "E1.execute_error_arm", paths, post, pre=inv, kinds=("cut", "return"),
+                  what="an opcode error is added to the error buffer exactly once, except jump-target errors in permissive mode; the thread is killed either way",
+                  replay=replay, key="vm-execute-error-classification")
+    if len(seen["kinds"]) < 13 and not out.violations:
         out.inconc("E1: only %d of 13 error kinds reached the classification (%s)" % (len(seen["kinds"]), sorted(seen["kinds"])))
     out.extra["E1_error_kinds"] = sorted(seen["kinds"])
 
@@ -249,7 +288,16 @@ def e2(out, eng, pr):
         return z3.And(z3.BoolVal(kind in BAD_JUMP), z3.BoolVal(len(stores) == 1), z3.Not(n["permissive"]), killed == n["killed"])
 
     def replay(p, model):
-        return native.scenario(out, "permissive_bad_jump", {"jumpi": 1})
+        kind = None
+        for x in [p.ret[0]] + [e[1] for e in p.ctx.events if e[0] == "store_error"]:
+            pl = None
+            if isinstance(x, Agg) and x.variant == "Err":
+                pl = x.fields[0].fields.get(1)
+            elif isinstance(x, Agg):
+                pl = x.fields.get(1)
+            if isinstance(pl, Agg) and pl.variant:
+                kind = pl.variant
+        return replay_kind(out, kind or "NonExistentJumpTarget", jumpi=True)
     verdict(out, pr, "E2.jumpi_bad_target", paths, post, pre=inv, replay=replay, key="permissive-jumpi-bad-target-is-reported",
             what="JUMPI with an invalid / non-existent / unresolvable target: strict mode records the error, permissive mode records nothing, "
                  "the fall-through thread continues; other errors propagate")
